@@ -167,6 +167,9 @@ def argv_stage(chk, alphabet, k, stride, offset, label):
     bad = 0
     seen = set()
     for i in range(0, len(argvs), B):
+        if 'results' not in out[i]:
+            chk.machinery_error('worker gave no answer for a batch of command lines (%s): %s' % (label, str(out[i])[:300]))
+            continue
         for j, got in enumerate(out[i]['results']):
             m = ns[i + j]
             want = exp[m]
